@@ -483,3 +483,91 @@ pub fn tnd_models(small: bool) -> BoxedStrategy<Model> {
         })
         .boxed()
 }
+
+// ------------------------------------------------------------------------------------------------ minimiser
+
+/// simpler candidate models (tried greedily after proptest's own shrinking); candidates outside the domain are
+/// discarded by the check, so no format knowledge is needed here
+pub fn simpler(m: &Model) -> Vec<Model> {
+    let mut out = Vec::new();
+    let mut push = |c: Model| {
+        if c != *m {
+            out.push(c);
+        }
+    };
+    for h in [1, 2, m.h / 2, m.h.saturating_sub(1), 25] {
+        if h >= 1 && h < m.h {
+            push(Model { h, ..m.clone() });
+        }
+    }
+    for w in [1, 2, m.w / 2, m.w.saturating_sub(1), m.w.saturating_sub(2), 80] {
+        if w >= 1 && w < m.w {
+            push(Model { w, ..m.clone() });
+        }
+    }
+    if m.runs.len() > 1 {
+        let n = m.runs.len();
+        push(Model { runs: m.runs[..n / 2].to_vec(), ..m.clone() });
+        push(Model { runs: m.runs[n / 2..].to_vec(), ..m.clone() });
+        if n <= 24 {
+            for i in 0..n {
+                let mut r = m.runs.clone();
+                r.remove(i);
+                push(Model { runs: r, ..m.clone() });
+            }
+        }
+    }
+    if m.fmt != Fmt::Tnd && !m.is_default_palette() {
+        push(Model { palette: DEFPAL6.to_vec(), ..m.clone() });
+    }
+    if m.fonts.len() == 2 {
+        let mut c = m.clone();
+        c.fonts.truncate(1);
+        for r in &mut c.runs {
+            r.1.page = 0;
+        }
+        push(c);
+    }
+    if m.fonts != [FontM::Default] && m.fonts.len() == 1 {
+        push(Model { fonts: vec![FontM::Default], font_h: 16, ..m.clone() });
+    }
+    if m.font_h != 16 {
+        push(Model { font_h: 16, ..m.clone() });
+    }
+    if m.compress {
+        push(Model { compress: false, ..m.clone() });
+    }
+    if m.sauce {
+        push(Model { sauce: false, ..m.clone() });
+    }
+    if m.runs.len() <= 12 {
+        for i in 0..m.runs.len() {
+            let (len, c) = m.runs[i];
+            let mut cands = Vec::new();
+            if len > 1 {
+                cands.push((1, c));
+                cands.push((len - 1, c));
+            }
+            if c.ch != 0 && c.ch != b'A' {
+                cands.push((len, Cell { ch: if c.ch < 32 { 0 } else { b'A' }, ..c }));
+            }
+            if c.fg != 0 {
+                cands.push((len, Cell { fg: 0, ..c }));
+                cands.push((len, Cell { fg: c.fg - 1, ..c }));
+            }
+            if c.bg != 0 {
+                cands.push((len, Cell { bg: 0, ..c }));
+                cands.push((len, Cell { bg: c.bg - 1, ..c }));
+            }
+            if c.blink {
+                cands.push((len, Cell { blink: false, ..c }));
+            }
+            for cand in cands {
+                let mut r = m.runs.clone();
+                r[i] = cand;
+                push(Model { runs: r, ..m.clone() });
+            }
+        }
+    }
+    out
+}
